@@ -43,7 +43,7 @@ def tasks(tier, seed=0):
         ndir, scales, rs = 4, [1e-12, 1e-9, 1e-6, 1e-4, 1e-2, 1e-1], list(range(0, 30))
     else:
         ndir, scales, rs = 12, geo.SCALES, list(range(0, 30))
-    for kind, lon, lat in geo.special_sites():
+    for kind, lon, lat in geo.special_sites(tier, seed):
         out.append(('site', kind, lon, lat, ndir, scales, rs))
         out.append(('sitecells', kind, lon, lat, rs if tier == 'thorough' else [r for r in rs if r % 3 == (seed % 3) or r >= 26]))
     out.append(('poles', list(range(0, 30))))
